@@ -147,7 +147,7 @@ contract("asn1:_validate_tag",
                   "implies(header is not None, result[1] == header.tag_length + header.length and result[0] == take(drop(data, header.tag_length), header.length) and header.tag == expected_tag)",
                   "implies(header is not None, len(data) >= header.tag_length + header.length)",
                   "len(result[0]) == result[1] - (hdr_len(data) if header is None else header.tag_length)",
-                  "result[1] <= len(data)", "result[1] >= 0"],
+                  "result[1] <= len(data)", "result[1] >= 0", "implies(header is None, result[1] >= 2)"],
          raises={"NotEnougData": "(header is None and not tlv_complete(data)) or (header is not None and len(data) < header.tag_length + header.length)",
                  "ValueError": "(header is None and id_complete(data)) or (header is not None and header.tag != expected_tag)"})
 
@@ -169,21 +169,21 @@ def _tagmatch(default_num, default_cons):
 
 
 contract("asn1:_read_asn1_octet_string", **_READ_COMMON,
-         ensures=["result[0] == " + _CONTENT, "result[1] == " + _CONSUMED, "result[1] <= len(data)", "result[1] >= 0",
+         ensures=["result[0] == " + _CONTENT, "result[1] == " + _CONSUMED, "result[1] <= len(data)", "result[1] >= 0", "implies(header is None, result[1] >= 2)",
                   _tagmatch(4, "False"),
                   "implies(header is not None and tag is not None, header.tag == tag)"])
 contract("asn1:_read_asn1_sequence", **_READ_COMMON,
-         ensures=["result[0] == " + _CONTENT, "result[1] == " + _CONSUMED, "result[1] <= len(data)", "result[1] >= 0",
+         ensures=["result[0] == " + _CONTENT, "result[1] == " + _CONSUMED, "result[1] <= len(data)", "result[1] >= 0", "implies(header is None, result[1] >= 2)",
                   _tagmatch(16, "True"),
                   "implies(header is not None and tag is not None, header.tag == tag)"])
 contract("asn1:_read_asn1_set", **_READ_COMMON,
-         ensures=["result[0] == " + _CONTENT, "result[1] == " + _CONSUMED, "result[1] <= len(data)", "result[1] >= 0",
+         ensures=["result[0] == " + _CONTENT, "result[1] == " + _CONSUMED, "result[1] <= len(data)", "result[1] >= 0", "implies(header is None, result[1] >= 2)",
                   _tagmatch(17, "True"),
                   "implies(header is not None and tag is not None, header.tag == tag)"])
 contract("asn1:_read_asn1_boolean", **_READ_COMMON,
          # X.690 8.2: one content octet, FALSE = 0, TRUE = any other value (contents of another length are malformed: no claim)
          ensures=["implies(len(%s) == 1, result[0] == (%s[0] != 0))" % (_CONTENT, _CONTENT),
-                  "result[1] == " + _CONSUMED, "result[1] <= len(data)", "result[1] >= 0",
+                  "result[1] == " + _CONSUMED, "result[1] <= len(data)", "result[1] >= 0", "implies(header is None, result[1] >= 2)",
                   _tagmatch(1, "False"),
                   "implies(header is not None and tag is not None, header.tag == tag)"])
 
@@ -247,7 +247,7 @@ contract("asn1:_read_asn1_integer",
          requires=[_HDR_OK],
          ensures=["len(%s) >= 1" % _CONTENT,
                   "result[0] == tc(%s)" % _CONTENT,
-                  "result[1] == " + _CONSUMED, "result[1] <= len(data)", "result[1] >= 0",
+                  "result[1] == " + _CONSUMED, "result[1] <= len(data)", "result[1] >= 0", "implies(header is None, result[1] >= 2)",
                   _tagmatch(2, "False"),
                   "implies(header is not None and tag is not None, header.tag == tag)"],
          raises={"NotEnougData": "(header is None and not tlv_complete(data)) or (header is not None and len(data) < header.tag_length + header.length)",
@@ -285,7 +285,9 @@ def _rtagmatch(default_num, default_cons):
 
 _RCOMMON = dict(params={"hint": "str"}, requires=[_RHDR_OK], raises=_RRAISES, on_raise=["self._view == old(self._view)"], modifies=["self._view"])
 _ADV = ["self._view == drop(%s, %s)" % (_V, _RCONSUMED), "%s <= len(%s)" % (_RCONSUMED, _V),
-        "implies(header is not None and tag is not None, header.tag == tag)"]
+        "implies(header is not None and tag is not None, header.tag == tag)",
+        # progress (termination of the `while reader:` loops of the decode tree): a TLV is at least two octets
+        "implies(header is None, len(self._view) + 2 <= len(%s))" % _V]
 
 contract("asn1:ASN1Reader.peek_header",
          requires=[],
@@ -317,7 +319,7 @@ contract("asn1:_read_asn1_enumerated",
          params={"data": "memoryview", "hint": "str"},
          requires=[_HDR_OK],
          ensures=["len(%s) >= 1" % _CONTENT, "result[0] == tc(%s)" % _CONTENT,
-                  "result[1] == " + _CONSUMED, "result[1] <= len(data)", "result[1] >= 0",
+                  "result[1] == " + _CONSUMED, "result[1] <= len(data)", "result[1] >= 0", "implies(header is None, result[1] >= 2)",
                   _tagmatch(10, "False"),
                   "implies(header is not None and tag is not None, header.tag == tag)"],
          raises={"NotEnougData": "(header is None and not tlv_complete(data)) or (header is not None and len(data) < header.tag_length + header.length)",
